@@ -130,3 +130,84 @@ func vcheckLookup(tag string, ok bool, got types.Entry, q vent, s vspec) {
 }
 
 var _ = time.Now
+
+// ---- system layer helpers (public API only, plus quiescence detection) ----
+
+// vuniverse: adversarial user keys: '@' inside a key, a byte below '@' after a shared
+// prefix, a key that looks like a versioned key of another one.
+var vuniverse = []string{"a", "a@", "a!", "b", "a@1"}
+
+// vDrain lets the background flusher/compactor finish.  Engine: run every other goroutine
+// to quiescence.  Native: poll until the flush queue and the immutable list are empty.
+func vDrain(db *DB) {
+	vf.Drain()
+	if vf.Native() {
+		for i := 0; i < 50000; i++ {
+			db.mu.RLock()
+			n := db.immutables.Len()
+			db.mu.RUnlock()
+			if n == 0 && len(db.flushC) == 0 {
+				return
+			}
+			time.Sleep(100 * time.Microsecond)
+		}
+	}
+}
+
+// vmodel is the reference state: last committed value per key (live=false: deleted/absent).
+type vmodel struct {
+	val  map[string][]byte
+	live map[string]bool
+}
+
+func newVModel() *vmodel { return &vmodel{val: map[string][]byte{}, live: map[string]bool{}} }
+
+func (mo *vmodel) set(k string, v []byte) { mo.live[k] = true; mo.val[k] = v }
+func (mo *vmodel) del(k string)           { mo.live[k] = false }
+
+// check reads every key in one read-only transaction and compares with the model.
+func (mo *vmodel) check(db *DB, tag string, keys []string) {
+	err := db.View(func(txn *Txn) error {
+		for _, k := range keys {
+			got, ok := txn.Get(k)
+			vf.ObsBool(tag+"."+k+".found", ok)
+			vf.Assert(tag+".found."+k, ok == mo.live[k])
+			if vf.And(ok, mo.live[k]) {
+				vf.Assert(tag+".value."+k, vf.BytesEq(got, mo.val[k]))
+				vf.ObsBytes(tag+"."+k+".value", got)
+			}
+		}
+		return nil
+	})
+	vf.Assert(tag+".view-ok", err == nil)
+}
+
+// vconfig: a configuration that forces rotation, flush and multi-level compaction with a
+// handful of tiny entries.  Thresholds are symbolic: every comparison against them
+// partitions their range, so every rotation/block pattern some threshold produces is covered.
+func vconfig(prefix string) Config {
+	return Config{
+		SkipListMaxLevel:       2,
+		SkipListP:              0.5,
+		MemtableByteThreshold:  vf.Int(prefix+"memThr", 1, 120),
+		ImmutableBuffer:        vf.Choose(prefix+"ib", 0, vf.Param("IBMAX", 1)),
+		DataBlockByteThreshold: vf.Int(prefix+"blkThr", 1, 40),
+		L0TargetNum:            vf.Choose(prefix+"l0", 1, vf.Param("L0MAX", 1)),
+		LevelRatio:             vf.Choose(prefix+"ratio", 1, vf.Param("RATIOMAX", 1)),
+	}
+}
+
+// vfiles counts the sstable files per level in the directory (to know that flushes and
+// compactions happened).
+func vfiles(db *DB) (l0, deeper int) {
+	db.manager.mu.Lock()
+	defer db.manager.mu.Unlock()
+	for i, l := range db.manager.levels {
+		if i == 0 {
+			l0 += l.Len()
+		} else {
+			deeper += l.Len()
+		}
+	}
+	return
+}
